@@ -294,4 +294,5 @@ class Scale(nn.Module):
         Args:
             input (torch.Tensor): the input tensor (non-negative).
         '''
+        assert torch.all(input >= 0), 'input has to be non-negative'
         return self.delta * input
